@@ -123,6 +123,9 @@ def shapes(fmt):
     zmeta = dict(meta, temperature=0.0, temperature_unit='°C')
     yield "shape:temperature_zero_celsius", pygaps.PointIsotherm(pressure=[0.1, 0.2, 0.4], loading=[1.0, 1.5, 2.0], **zmeta)
     yield "shape:metadata_value_zero", pygaps.PointIsotherm(pressure=[0.1, 0.2, 0.4], loading=[1.0, 1.5, 2.0], activation_offset=0.0, **meta)
+    # material properties: text and numbers, a property name that contains the marker the flat formats prefix them with
+    mmeta = dict(meta, material={'name': 'pgv_rt_mat3', 'density': 1.5, 'batch': 'b7', 'raw_material_source': 'mine'})
+    yield "shape:material_properties", pygaps.PointIsotherm(pressure=[0.1, 0.2, 0.4], loading=[1.0, 1.5, 2.0], **mmeta)
     # a table with repeated row labels (pandas.concat of two measurements), branch given and guessed
     a = pandas.DataFrame({'pressure': [0.1, 0.2, 0.3], 'loading': [1.0, 2.0, 2.5]})
     for br in ('ads', 'guess'):
